@@ -100,8 +100,7 @@ theorem noCRLF_fmtDur {d : Int} (hd : d.natAbs ≤ durMax.toNat) : noCRLF (C.fmt
 theorem noCRLF_fmtTime {t : Time} (hw : wfTime t = true) : noCRLF (C.fmtTime t) = true :=
   noCRLF_of_all (hC.time_chars t hw) (by decide) (by decide)
 
-theorem clean_partLine {p : Part} (hw : wfPart p = true) : Clean (Part.line C p) := by
-  apply clean_of_noCRLF
+theorem noCRLF_partLine {p : Part} (hw : wfPart p = true) : noCRLF (Part.line C p) = true := by
   simp only [wfPart, Bool.and_eq_true] at hw
   obtain ⟨⟨⟨hd, hu⟩, hq⟩, hb⟩ := hw
   simp only [Part.line, noCRLF_append, Bool.and_eq_true]
@@ -116,16 +115,15 @@ theorem clean_partLine {p : Part} (hw : wfPart p = true) : Clean (Part.line C p)
   · exact attrsNoCRLF_ite (by decide) (by decide)
   · exact attrsNoCRLF_ite (by decide) (by decide)
 
-theorem clean_partLines {ps : List Part} (hw : ps.all wfPart = true) : ∀ l ∈ partLines C ps, Clean l := by
+theorem noCRLF_partLines {ps : List Part} (hw : ps.all wfPart = true) : ∀ l ∈ partLines C ps, noCRLF l = true := by
   intro l hl
   simp only [partLines, List.mem_map] at hl
   obtain ⟨p, hp, rfl⟩ := hl
-  exact clean_partLine hC (List.all_eq_true.mp hw p hp)
+  exact noCRLF_partLine hC (List.all_eq_true.mp hw p hp)
 
 end
 
-theorem clean_keyLine {k : Key} (hw : wfKey k = true) : Clean (keyLine k) := by
-  apply clean_of_noCRLF
+theorem noCRLF_keyLine {k : Key} (hw : wfKey k = true) : noCRLF (keyLine k) = true := by
   simp only [keyLine, noCRLF_append, Bool.and_eq_true]
   refine ⟨by decide, noCRLF_renderAttrs _ ?_⟩
   unfold wfKey at hw
@@ -161,39 +159,35 @@ section
 variable {C : Codec} (hC : C.Valid)
 include hC
 
-theorem clean_segmentLines {s : Segment} (hw : wfSegment s = true) : ∀ l ∈ Segment.lines C s, Clean l := by
+theorem noCRLF_segmentLines {s : Segment} (hw : wfSegment s = true) : ∀ l ∈ Segment.lines C s, noCRLF l = true := by
   simp only [wfSegment, Bool.and_eq_true, decide_eq_true_eq] at hw
   obtain ⟨⟨⟨⟨⟨⟨⟨⟨⟨⟨hd, hu⟩, hh⟩, hl⟩, ht⟩, htl⟩, hbr⟩, hb⟩, hdt⟩, hk⟩, hp⟩ := hw
   intro l hmem
   simp only [Segment.lines, List.mem_append, List.mem_cons, List.mem_nil_iff, or_false] at hmem
   rcases hmem with ((((((h | h) | h) | h) | h) | h) | h) | h
-  · rw [mem_flagLine h]; exact clean_of_noCRLF (by decide)
-  · rw [mem_flagLine h]; exact clean_of_noCRLF (by decide)
+  · rw [mem_flagLine h]; exact (by decide)
+  · rw [mem_flagLine h]; exact (by decide)
   · obtain ⟨t, ht', rfl⟩ := mem_optLine h
     rw [ht'] at hdt
-    apply clean_of_noCRLF
     simp only [pdtLine, noCRLF_append, Bool.and_eq_true]
     exact ⟨by decide, noCRLF_fmtTime hC (by simpa using hdt)⟩
   · obtain ⟨v, hv, rfl⟩ := mem_optLine h
     rw [hv] at hbr
     obtain ⟨h0, _⟩ := int31_bounds (by simpa using hbr)
-    apply clean_of_noCRLF
     simp only [bitrateLine, noCRLF_append, Bool.and_eq_true, formatInt_nonneg h0]
     exact ⟨by decide, noCRLF_formatNat _⟩
-  · exact clean_partLines hC hp l h
+  · exact noCRLF_partLines hC hp l h
   · subst h
-    apply clean_of_noCRLF
     simp only [extinfLine, noCRLF_append, noCRLF_cons, Bool.and_eq_true]
     exact ⟨⟨by decide, noCRLF_fmtDur hC (natAbs_lt_of_posDur hd).1⟩, by decide, noCRLF_of_lineOK htl⟩
   · obtain ⟨v, _, rfl⟩ := mem_optLine h
-    apply clean_of_noCRLF
     simp only [byteRangeLine, noCRLF_append, Bool.and_eq_true]
     exact ⟨by decide, noCRLF_byteRange _⟩
   · subst h
-    exact clean_of_noCRLF (noCRLF_of_lineOK hl)
+    exact noCRLF_of_lineOK hl
 
-theorem clean_segmentsLines : ∀ (segs : List Segment) (prev : Option Key), segs.all wfSegment = true →
-    ∀ l ∈ segmentsLines C prev segs, Clean l
+theorem noCRLF_segmentsLines : ∀ (segs : List Segment) (prev : Option Key), segs.all wfSegment = true →
+    ∀ l ∈ segmentsLines C prev segs, noCRLF l = true
   | [], _, _, l, h => by simp [segmentsLines] at h
   | s :: rest, prev, hw, l, h => by
     simp only [List.all_cons, Bool.and_eq_true] at hw
@@ -203,8 +197,8 @@ theorem clean_segmentsLines : ∀ (segs : List Segment) (prev : Option Key), seg
     | none =>
       simp only [hkey, List.mem_append] at h
       rcases h with h | h
-      · exact clean_segmentLines hC hws l h
-      · exact clean_segmentsLines rest prev hwr l h
+      · exact noCRLF_segmentLines hC hws l h
+      · exact noCRLF_segmentsLines rest prev hwr l h
     | some k =>
       have hwk : wfKey k = true := by
         simp only [wfSegment, Bool.and_eq_true, hkey, Option.all_some] at hws
@@ -213,21 +207,20 @@ theorem clean_segmentsLines : ∀ (segs : List Segment) (prev : Option Key), seg
       split at h
       · simp only [List.mem_cons, List.mem_append] at h
         rcases h with rfl | h | h
-        · exact clean_keyLine hwk
-        · exact clean_segmentLines hC hws l h
-        · exact clean_segmentsLines rest (some k) hwr l h
+        · exact noCRLF_keyLine hwk
+        · exact noCRLF_segmentLines hC hws l h
+        · exact noCRLF_segmentsLines rest (some k) hwr l h
       · simp only [List.mem_append] at h
         rcases h with h | h
-        · exact clean_segmentLines hC hws l h
-        · exact clean_segmentsLines rest prev hwr l h
+        · exact noCRLF_segmentLines hC hws l h
+        · exact noCRLF_segmentsLines rest prev hwr l h
 
-theorem clean_lines (p : Media) (hw : WFMedia p) : ∀ l ∈ Media.lines C p, Clean l := by
+theorem noCRLF_lines (p : Media) (hw : WFMedia p) : ∀ l ∈ Media.lines C p, noCRLF l = true := by
   simp only [WFMedia, wfMedia, Bool.and_eq_true, decide_eq_true_eq] at hw
   obtain ⟨⟨⟨⟨⟨⟨⟨⟨⟨⟨⟨⟨⟨⟨⟨⟨hv0, hv1⟩, htd⟩, htd0⟩, hms⟩, hds⟩, hsk⟩, hst⟩, hsc⟩, hpi⟩, hpt⟩, hmap⟩, hne⟩, hsegs⟩, hkp⟩, hparts⟩, hhint⟩ := hw
-  have hnat : ∀ (lit : Str) (v : Int), noCRLF lit = true → int31 v = true → Clean (lit ++ formatInt v) := by
+  have hnat : ∀ (lit : Str) (v : Int), noCRLF lit = true → int31 v = true → noCRLF (lit ++ formatInt v) = true := by
     intro lit v hl hv
     obtain ⟨h0, _⟩ := int31_bounds hv
-    apply clean_of_noCRLF
     simp only [noCRLF_append, Bool.and_eq_true, formatInt_nonneg h0]
     exact ⟨hl, noCRLF_formatNat _⟩
   intro l hmem
@@ -238,21 +231,18 @@ theorem clean_lines (p : Media) (hw : WFMedia p) : ∀ l ∈ Media.lines C p, Cl
     exact hnat _ _ (by decide) (by
       have : maxSupportedVersion = 10 := rfl
       simp [int31]; omega)
-  · rw [mem_flagLine h]; exact clean_of_noCRLF (by decide)
+  · rw [mem_flagLine h]; exact (by decide)
   · obtain ⟨t, ht, rfl⟩ := mem_optLine h
     rw [ht] at hst
-    apply clean_of_noCRLF
     simp only [startLine, noCRLF_append, Bool.and_eq_true]
     exact ⟨by decide, noCRLF_renderAttrs _ (attrsNoCRLF_single (by decide)
       (noCRLF_fmtDur hC (natAbs_lt_of_signedDur (by simpa using hst)).1))⟩
   · obtain ⟨v, _, rfl⟩ := mem_optLine h
-    apply clean_of_noCRLF
     cases v <;> decide
   · subst h; exact hnat _ _ (by decide) htd
   · obtain ⟨t, ht, rfl⟩ := mem_optLine h
     rw [ht] at hsc
     simp only [Option.all_some, Bool.and_eq_true] at hsc
-    apply clean_of_noCRLF
     simp only [serverControlLine, noCRLF_append, Bool.and_eq_true]
     refine ⟨by decide, noCRLF_renderAttrs _ ?_⟩
     unfold ServerControl.attrs
@@ -269,7 +259,6 @@ theorem clean_lines (p : Media) (hw : WFMedia p) : ∀ l ∈ Media.lines C p, Cl
         exact attrsNoCRLF_single (by decide) (noCRLF_fmtDur hC (natAbs_lt_of_nnDur (by simpa using hsc.2)))
   · obtain ⟨t, ht, rfl⟩ := mem_optLine h
     rw [ht] at hpi
-    apply clean_of_noCRLF
     simp only [partInfLine, noCRLF_append, Bool.and_eq_true]
     exact ⟨by decide, noCRLF_renderAttrs _ (attrsNoCRLF_single (by decide)
       (noCRLF_fmtDur hC (natAbs_lt_of_posDur (by simpa using hpi)).1))⟩
@@ -280,29 +269,25 @@ theorem clean_lines (p : Media) (hw : WFMedia p) : ∀ l ∈ Media.lines C p, Cl
   · obtain ⟨v, hv, rfl⟩ := mem_optLine h
     rw [hv] at hpt
     simp only [Option.all_some, Bool.or_eq_true, decide_eq_true_eq] at hpt
-    apply clean_of_noCRLF
     rcases hpt with rfl | rfl <;> decide
   · obtain ⟨t, ht, rfl⟩ := mem_optLine h
     rw [ht] at hmap
     simp only [Option.all_some, Bool.and_eq_true] at hmap
-    apply clean_of_noCRLF
     simp only [mapLine, noCRLF_append, Bool.and_eq_true]
     refine ⟨by decide, noCRLF_renderAttrs _ ?_⟩
     exact attrsNoCRLF_append (attrsNoCRLF_single (by decide) (noCRLF_of_quotedOK hmap.1.2)) (attrsNoCRLF_optBr _ _)
   · obtain ⟨v, hv, rfl⟩ := mem_optLine h
     rw [hv] at hsk
     obtain ⟨h0, _⟩ := int31_bounds (by simpa using hsk)
-    apply clean_of_noCRLF
     simp only [skipLine, noCRLF_append, Bool.and_eq_true]
     refine ⟨by decide, noCRLF_renderAttrs _ (attrsNoCRLF_single (by decide) ?_)⟩
     simp only [AV.val, formatInt_nonneg h0]
     exact noCRLF_formatNat _
-  · exact clean_segmentsLines hC _ _ hsegs l h
-  · exact clean_partLines hC hparts l h
+  · exact noCRLF_segmentsLines hC _ _ hsegs l h
+  · exact noCRLF_partLines hC hparts l h
   · obtain ⟨t, ht, rfl⟩ := mem_optLine h
     rw [ht] at hhint
     simp only [Option.all_some, Bool.and_eq_true] at hhint
-    apply clean_of_noCRLF
     simp only [hintLine, noCRLF_append, Bool.and_eq_true]
     refine ⟨by decide, noCRLF_renderAttrs _ ?_⟩
     unfold PreloadHint.attrs
@@ -315,7 +300,10 @@ theorem clean_lines (p : Media) (hw : WFMedia p) : ∀ l ∈ Media.lines C p, Cl
     · cases t.brLen with
       | none => exact attrsNoCRLF_nil
       | some l => exact attrsNoCRLF_single (by decide) (noCRLF_formatNat _)
-  · rw [mem_flagLine h]; exact clean_of_noCRLF (by decide)
+  · rw [mem_flagLine h]; exact (by decide)
+
+theorem clean_lines (p : Media) (hw : WFMedia p) : ∀ l ∈ Media.lines C p, Clean l :=
+  fun l hl => clean_of_noCRLF (noCRLF_lines hC p hw l hl)
 
 /-- C14, first clause, for the media playlist -/
 theorem Media.roundtrip (p : Media) (hw : WFMedia p) :
